@@ -848,7 +848,9 @@ def _shrink(inp):
     if _TIMEOUTS[0] > 3:        # a looping implementation: do not spend the run on shrinking
         return
     # fewer things first: no earlier calls, plain call form
-    if inp.get('pre'):
+    if len(inp.get('pre', [])) > 1:
+        # keep at least one earlier call: a failure that depends on process state must stay
+        # reproducible from the replay file in a fresh process
         for k in range(len(inp['pre'])):
             yield dict(inp, pre=inp['pre'][:k] + inp['pre'][k + 1:])
     for key in ('layout', 'ptypes', 'keywords', 'min_frac', 'max_frac', 'weak'):
